@@ -540,14 +540,15 @@ func c02GenInput(r *rand.Rand, size int) *c02Input {
 	g := &c02Gen{r: r, shapes: map[string]bool{}}
 	g.sshList = g.coin(4)
 	in := &c02Input{Trees: map[string]any{}, Static: map[string]string{}, Env: map[string]string{}}
-	in.Static["e1.env"] = "E1=from-e1\nE2=from-e1\nSHARED=1\nQ=\"quoted ${E1}\"\n"
+	tok := strconv.Itoa(r.Intn(1000000))
+	in.Static["e1.env"] = "E1=from-e1-" + tok + "\nE2=from-e1\nSHARED=1\nQ=\"quoted ${E1}\"\n"
 	in.Static["e2.env"] = "E2=from-e2\nE3=from-e2\nSHARED=2\n# comment\nBARE\n"
 	in.Static["e3.env"] = "E4=${V1:-none}\nSHARED=3\n"
 	in.Static["inc/e1.env"] = "E1=inc\nINC=1\n"
 	in.Static["inc/e2.env"] = "E2=inc2\nSHARED=i2\n"
 	in.Static["inc/e3.env"] = "E3=${INCV:-noincv}\n"
 	in.Static["inc/inc.env"] = "INCV=from-inc-env\nV1=inc-v1\n"
-	in.Static["sec.txt"] = "s3cret\n"
+	in.Static["sec.txt"] = "s3cret-" + tok + "\n"
 	in.Static["keys/default"] = "k\n"
 	for _, kv := range [][2]string{{"V1", "one"}, {"V2", "two"}, {"TAG", "1.2"}, {"MODE", "0444"}, {"RETRIES", "5"}, {"T", "3"}, {"SECRET_ENV", "shh"}} {
 		if g.coin(2) {
@@ -903,8 +904,9 @@ func errSite(msg string) string {
 	case strings.Contains(msg, "dependency cycle detected"), strings.Contains(msg, "depends on unknown service"), strings.Contains(msg, "but is disabled"):
 		return "graph.newGraph"
 	}
-	// class = the message with quoted names, paths and numbers removed
+	// class = the message with quoted names, paths, service/resource names and numbers removed
 	s := regexp.MustCompile(`"[^"]*"|'[^']*'|\$ROOT\S*|[0-9]+`).ReplaceAllString(msg, "_")
+	s = regexp.MustCompile(`\b(services|networks|volumes|secrets|configs)\.[^.\s]+`).ReplaceAllString(s, "$1.*")
 	ws := strings.Fields(s)
 	if len(ws) > 6 {
 		ws = ws[:6]
@@ -992,15 +994,43 @@ func init() {
 			if err := json.Unmarshal(raw, &a); err != nil {
 				return map[string]any{"bad": err.Error()}
 			}
-			// prefix: other loads in the same process
-			for _, p := range a.Prefix {
-				_, root, _ := p.Load()
-				os.RemoveAll(root)
-			}
 			root, err := core.Materialize(a.Req.Files)
 			defer os.RemoveAll(root)
 			if err != nil {
 				return map[string]any{"bad": err.Error()}
+			}
+			write := func(files map[string]string) error {
+				for name, content := range files {
+					p := filepath.Join(root, name)
+					if err := os.MkdirAll(filepath.Dir(p), 0o755); err != nil {
+						return err
+					}
+					if err := os.WriteFile(p, []byte(content), 0o644); err != nil {
+						return err
+					}
+				}
+				return nil
+			}
+			// reference load, then the loads of *other* models in the same process and at the same paths
+			// (same file names, other contents), then the model again: the history must not show
+			ref := c02Observe(a.Req, root)
+			for _, p := range a.Prefix {
+				if err := write(p.Files); err != nil {
+					return map[string]any{"bad": err.Error()}
+				}
+				func() {
+					defer func() { _ = recover() }() // a crash of an unrelated load is not this case's business
+					_, _ = p.LoadIn(root)
+				}()
+			}
+			if len(a.Prefix) > 0 {
+				ents, _ := os.ReadDir(root)
+				for _, e := range ents {
+					os.RemoveAll(filepath.Join(root, e.Name()))
+				}
+				if err := write(a.Req.Files); err != nil {
+					return map[string]any{"bad": err.Error()}
+				}
 			}
 			first := c02Observe(a.Req, root)
 			for i := 1; i < a.N; i++ {
@@ -1009,6 +1039,11 @@ func init() {
 					d["at"] = i
 					return d
 				}
+			}
+			// the repeats agree among themselves: a difference with the load made before the other loads is history
+			if d := c02Compare(ref, first, "history"); d != nil {
+				d["site"] = "history:" + fmt.Sprint(d["site"])
+				return d
 			}
 			for vi, files := range a.Variants {
 				for name, content := range files {
